@@ -60,6 +60,79 @@ Definition nonzero (o : option Z) : bool := match o with Some z => negb (z =? 0)
 Definition key_constrained (c : strc) : bool :=
   match pattern c with Some _ => true | None => false end || nonzero (maxLength c) || nonzero (minLength c).
 
+(* ------------------------------------------------------------------ enum classes *)
+(* What the schema export needs to know about an enum CLASS: the primitive type it mixes in (enum.IntEnum,
+   class E(str, enum.Enum), class E(float, enum.Enum): isinstance(member, (int, str, float)) holds), and whether
+   the Enum fields over it are declared with serialization_by_value=True (a per-field flag of typedpy; the
+   generator declares it uniformly per class, so it is recorded here). *)
+Inductive mixin := MixNone | MixInt | MixStr | MixFloat.
+Record eopts := { eo_mixin : mixin; eo_by_value : bool }.
+Definition einfo_t := pystr -> eopts.
+Definition no_einfo : einfo_t := fun _ => {| eo_mixin := MixNone; eo_by_value := false |}.
+
+(* EnumMapper.to_schema.adjust as a decision over what the isinstance tests report; the same table is
+   regenerated from the source on every run (Gen/SchemaGuards.v, bridged in ToSchemaProofs.v) *)
+Inductive adj := AdjName | AdjValue | AdjSelf | AdjRaise.
+Definition enum_adjust (is_enum is_prim by_value : bool) : adj :=
+  if is_enum then (if by_value then AdjValue else AdjName)
+  else if is_prim then AdjSelf else AdjRaise.
+
+(* EnumMapper.adjust: isinstance(val, (int, str, float)) on a literal *)
+Definition enum_lit_ok (v : pyval) : bool :=
+  match v with
+  | PBool _ | PStr _ => true
+  | PNum (NDec _ _) => false
+  | PNum _ => true
+  | _ => false
+  end.
+
+Definition is_member (v : pyval) : bool := match v with PEnum _ _ _ => true | _ => false end.
+
+Fixpoint mapO {A B} (f : A -> option B) (l : list A) : option (list B) :=
+  match l with
+  | [] => Some []
+  | x :: t => match f x, mapO f t with Some y, Some ys => Some (y :: ys) | _, _ => None end
+  end.
+
+Section EI.
+  Variable ei : einfo_t.
+
+  Definition is_prim_val (v : pyval) : bool :=
+    match v with
+    | PEnum c _ _ => match eo_mixin (ei c) with MixNone => false | _ => true end
+    | _ => enum_lit_ok v
+    end.
+
+  (* one entry of the exported "enum" list, as it reads after JSON encoding (a member of a class that mixes in a
+     primitive type encodes as its value) *)
+  Definition adjust_val (by_value : bool) (v : pyval) : option pyval :=
+    match enum_adjust (is_member v) (is_prim_val v) by_value with
+    | AdjName => match v with PEnum _ n _ => Some (PStr n) | _ => None end
+    | AdjValue => match v with PEnum _ _ x => Some x | _ => None end
+    | AdjSelf => Some (match v with PEnum _ _ x => x | _ => v end)
+    | AdjRaise => None
+    end.
+
+  Definition members_of (c : pystr) (ms : list (pystr * pyval)) : list pyval :=
+    map (fun m => PEnum c (fst m) (snd m)) ms.
+
+  Definition enum_vals (f : field) : option (list pyval) :=
+    match f with
+    | FEnumLit vs => mapO (adjust_val false) vs
+    | FEnumCls c ms => mapO (adjust_val (eo_by_value (ei c))) (members_of c ms)
+    | _ => None
+    end.
+
+  Definition enum_schema (f : field) : schema :=
+    match enum_vals f with Some l => Sch [KEnum l] | None => Sch [] end.
+  Definition enum_mappable (f : field) : bool :=
+    match enum_vals f with Some _ => true | None => false end.
+  Definition enum_clean (f : field) : bool :=
+    match enum_vals f with
+    | Some l => negb (Nat.eqb (length l) 0) && junique l && forallb is_json l
+    | None => false
+    end.
+
 (* convert_to_schema on a field *)
 Fixpoint fschema (f : field) : schema :=
   match f with
@@ -68,8 +141,7 @@ Fixpoint fschema (f : field) : schema :=
   | FBoolean => Sch [KType TBoolean]
   | FNone => Sch []
   | FAnything => Sch []
-  | FEnumLit vs => Sch [KEnum vs]
-  | FEnumCls _ ms => Sch [KEnum (map (fun m => PStr (fst m)) ms)]
+  | FEnumLit _ | FEnumCls _ _ => enum_schema f
   | FSeqAny _ sz u => Sch ([KType TArray] ++ uniq_kws u ++ size_kws sz)
   | FSeqEach _ item sz u => Sch ([KType TArray] ++ uniq_kws u ++ size_kws sz ++ [KItems (fschema item)])
   | FSeqPos _ items sz u add =>
@@ -97,22 +169,12 @@ Fixpoint fschema (f : field) : schema :=
 
 Definition is_list_kind (k : seqkind) : bool := match k with SeqList => true | SeqDeque => false end.
 
-(* EnumMapper.adjust: isinstance(val, (int, str, float)) *)
-Definition enum_lit_ok (v : pyval) : bool :=
-  match v with
-  | PBool _ | PStr _ => true
-  | PNum (NDec _ _) => false
-  | PNum _ => true
-  | _ => false
-  end.
-
 (* the real convert_to_schema returns (rather than raising) *)
 Fixpoint mappable (f : field) : bool :=
   match f with
   | FNumber _ _ _ | FString _ | FBoolean => true
   | FNone | FAnything => false
-  | FEnumLit vs => forallb enum_lit_ok vs
-  | FEnumCls _ _ => true
+  | FEnumLit _ | FEnumCls _ _ => enum_mappable f
   | FSeqAny k _ _ => is_list_kind k
   | FSeqEach k item _ _ => is_list_kind k && mappable item
   | FSeqPos k items _ _ _ => is_list_kind k && forallb mappable items
@@ -156,8 +218,7 @@ Fixpoint fclean (f : field) : bool :=
   | FString c => nonneg (minLength c) && nonneg (maxLength c)
   | FBoolean => true
   | FNone | FAnything => false
-  | FEnumLit vs => forallb enum_lit_ok vs && negb (Nat.eqb (length vs) 0) && junique vs
-  | FEnumCls _ ms => negb (Nat.eqb (length ms) 0) && junique (map (fun m => PStr (fst m)) ms)
+  | FEnumLit _ | FEnumCls _ _ => enum_clean f
   | FSeqAny k sz _ => is_list_kind k && size_sane sz
   | FSeqEach k item sz _ => is_list_kind k && size_sane sz && fclean item
   | FSeqPos k items sz _ _ =>
@@ -294,12 +355,6 @@ End Classes.
 
 (* ------------------------------------------------------------------ a minimal serializer *)
 
-Fixpoint mapO {A B} (f : A -> option B) (l : list A) : option (list B) :=
-  match l with
-  | [] => Some []
-  | x :: t => match f x, mapO f t with Some y, Some ys => Some (y :: ys) | _, _ => None end
-  end.
-
 (* values without a field definition (serialize_val(None, ...)): JSON-like values pass through *)
 Definition ser_any (v : pyval) : option pyval := if is_json v then Some v else None.
 
@@ -315,6 +370,26 @@ Section Ser.
   Variable e : env.
   Variable ser_struct : pystr -> list (pystr * pyval) -> option pyval.   (* nested Structure instances *)
 
+  (* serialize_val(None, ...): lists/tuples/sets element-wise, structures by their own serializer, anything else
+     through json.loads(json.dumps(.)) -- which renders a member of an enum class with a mixed-in primitive type as
+     its value and raises for a plain member, a Decimal, a deque (None = raises or not modelled) *)
+  Fixpoint ser_untyped (v : pyval) {struct v} : option pyval :=
+    let fix all (l : list pyval) {struct l} : option (list pyval) :=
+        match l with
+        | [] => Some []
+        | x :: t => match ser_untyped x, all t with Some y, Some ys => Some (y :: ys) | _, _ => None end
+        end in
+    match v with
+    | PNone | PBool _ | PStr _ => Some v
+    | PNum (NDec _ _) => None
+    | PNum _ => Some v
+    | PList l | PTuple l => match all l with Some r => Some (PList r) | None => None end
+    | PSet _ l => match all l with Some r => Some (PList r) | None => None end
+    | PEnum c _ x => match eo_mixin (ei c) with MixNone => None | _ => Some x end
+    | PStruct cn attrs => ser_struct cn attrs
+    | _ => None
+    end.
+
   Fixpoint ser (f : field) (v : pyval) {struct f} : option pyval :=
     match f with
     | FNumber _ _ _ =>
@@ -328,7 +403,15 @@ Section Ser.
     | FNone => match v with PNone => Some v | _ => None end
     | FAnything => match v with PNone | PBool _ | PStr _ | PNum (NInt _) | PNum (NFlt _ _) => Some v | _ => None end
     | FEnumLit _ => match v with PBool _ | PStr _ | PNum (NInt _) | PNum (NFlt _ _) => Some v | _ => None end
-    | FEnumCls _ _ => match v with PEnum _ name _ => Some (PStr name) | PStr _ => Some v | _ => None end
+    | FEnumCls c _ =>
+        match v with
+        | PEnum _ name x =>
+            if eo_by_value (ei c) then
+              match x with PBool _ | PStr _ | PNum (NInt _) | PNum (NFlt _ _) => Some x | _ => None end
+            else Some (PStr name)
+        | PStr _ => if eo_by_value (ei c) then None else Some v
+        | _ => None
+        end
     | FSeqAny k _ _ =>
         match seq_items k v with
         | Some l => match mapO ser_any l with Some r => Some (PList r) | None => None end
@@ -363,19 +446,10 @@ Section Ser.
             end
         | _ => None
         end
-    | FTuple items _ =>
+    | FTuple _ _ =>
+        (* serialize_val has no branch for Tuple: the elements are serialized WITHOUT their item fields *)
         match v with
-        | PTuple l =>
-            match (fix pos (fs : list field) (vs : list pyval) {struct fs} : option (list pyval) :=
-                     match fs, vs with
-                     | _, [] => Some []
-                     | [], _ :: _ => None
-                     | g :: fs', x :: vs' =>
-                         match ser g x, pos fs' vs' with Some y, Some ys => Some (y :: ys) | _, _ => None end
-                     end) items l with
-            | Some r => Some (PList r)
-            | None => None
-            end
+        | PTuple l => match mapO ser_untyped l with Some r => Some (PList r) | None => None end
         | _ => None
         end
     | FMapAny _ =>
@@ -408,6 +482,10 @@ Section Ser.
         match v with
         | PNone => None
         | _ =>
+            (* a member of an enum class with a mixed-in primitive type also satisfies the Number/String options
+               (it IS an int/str/float): which option wins is not modelled *)
+            if match v with PEnum c _ _ => match eo_mixin (ei c) with MixNone => false | _ => true end | _ => false end
+            then None else
             (fix first (gs : list field) : option pyval :=
                match gs with
                | [] => None
@@ -462,3 +540,4 @@ Section SerInst.
       end
     else ser_inst (S fuel) (c_name c) attrs.
 End SerInst.
+End EI.
